@@ -152,7 +152,7 @@ func c10Run(cfg vsched.Config, mode string, calls [][]string, reg int, pad int) 
 		})
 		cl, err := r.Connect()
 		if err != nil {
-			viol = append(viol, V("harness", "%v", err))
+			viol = append(viol, V("setup-handshake-fails", "setting the scenario up with well-behaved peers fails: %v", err))
 			return
 		}
 		var got []c10Rec
